@@ -361,7 +361,7 @@ class Isotonic(Leaf):
                 breaks = np.array(breaks, np.float32)
             self.densities = densities
             self.breaks = breaks
-            self.distribution = ss.rv_histogram(histogram=(densities, breaks))
+            self.distribution = self.__build_distribution(densities, breaks)
         elif densities is not None or breaks is not None:
             raise ValueError("Partial defined parameters (densities, breaks) are not handled")
 
@@ -389,7 +389,13 @@ class Isotonic(Leaf):
         # Build the distribution
         self.densities = densities
         self.breaks = breaks
-        self.distribution = ss.rv_histogram(histogram=(densities, breaks))
+        self.distribution = self.__build_distribution(densities, breaks)
+
+    @staticmethod
+    def __build_distribution(densities: np.ndarray, breaks: np.ndarray) -> ss.rv_histogram:
+        # SciPy evaluates the moments of a histogram as differences of powers of the breaks, in the breaks' own data type:
+        # with single precision breaks they cancel completely for narrow bins far from the origin
+        return ss.rv_histogram(histogram=(np.asarray(densities, dtype=np.float64), np.asarray(breaks, dtype=np.float64)))
 
     def em_init(self, random_state: np.random.RandomState):
         raise NotImplementedError("EM parameters initialization not yet implemented for Isotonic distributions")
